@@ -7,7 +7,8 @@
   The model mirrors the code as it is after the repairs
     fbd3a33 (raw TEXT bypasses the cache), 42ef54d (HTMLSerializer honours
     `cache`), 695e12f (EMPTY script/style does not set noescape),
-    ad5816e (WhitespaceFilter: CDATA state separate, `cdata=False` for html).
+    ad5816e (WhitespaceFilter: CDATA state separate, `cdata=False` for html),
+    722d2b1 (DOCTYPE identifiers written literally; cherry-picked from wp-xml).
   Specification-side definitions (`emit`, `ctxAfter`, `serSpec`) live in the
   second half; the theorems relating both are in `Props/C09.lean`.
   Import-free apart from other Model files (linked into `gdrv`).
@@ -154,14 +155,18 @@ def truthy : Option Str → Bool
   | some s => !s.isEmpty
   | none => false
 
-/-- the DOCTYPE branch: `Markup(fmt) % tuple(p for p in data if p)` escapes the
-    parts (quotes included).  An empty name makes the real code raise; the
-    driver reports such events as unmodelled. -/
+/-- the DOCTYPE branch (after repair 722d2b1 = wp-xml 96db7c3): the identifiers are written
+    literally, `''.join(buf) % tuple(p for p in data if p)`; a system identifier containing `"` is
+    delimited by single quotes.  An empty name makes the real code raise; the driver reports such
+    events as unmodelled. -/
 def doctypeOut (name : Str) (pubid sysid : Option Str) : Str :=
-  ['<', '!', 'D', 'O', 'C', 'T', 'Y', 'P', 'E', ' '] ++ escapePy true name ++
-  (if truthy pubid then [' ', 'P', 'U', 'B', 'L', 'I', 'C', ' ', '"'] ++ escapePy true (pubid.getD []) ++ ['"']
+  ['<', '!', 'D', 'O', 'C', 'T', 'Y', 'P', 'E', ' '] ++ name ++
+  (if truthy pubid then [' ', 'P', 'U', 'B', 'L', 'I', 'C', ' ', '"'] ++ pubid.getD [] ++ ['"']
    else if truthy sysid then [' ', 'S', 'Y', 'S', 'T', 'E', 'M'] else []) ++
-  (if truthy sysid then [' ', '"'] ++ escapePy true (sysid.getD []) ++ ['"'] else []) ++
+  (if truthy sysid then
+     (if (sysid.getD []).any (· == '"') then [' ', '\''] ++ sysid.getD [] ++ ['\'']
+      else [' ', '"'] ++ sysid.getD [] ++ ['"'])
+   else []) ++
   ['>', '\n']
 
 def xmlDeclOut (version : Str) (encoding : Option Str) (standalone : Int) : Str :=
